@@ -134,7 +134,8 @@ FComplete(s, k) ==
                    \* NoHostAvailable(..., self._errors): the live map, so the entry that the interrupted loop-thread
                    \* callback is about to store (pend) is part of what the application sees
                    !.nhaCls = IF k = "NoHostAvailable"
-                              THEN [h \in Hosts |-> IF s.pend.host = h THEN s.pend.kind ELSE s.errs[h]] ELSE @,
+                              THEN [h \in Hosts |-> IF s.pend.host = h /\ s.errs[h] = "none" THEN s.pend.kind ELSE s.errs[h]]
+                              ELSE @,
                    !.cb = [@ EXCEPT ![s.epoch] = @ + (IF k \in ResultKinds THEN 1 ELSE 0)],
                    !.eb = [@ EXCEPT ![s.epoch] = @ + (IF k \in ResultKinds THEN 0 ELSE 1)],
                    !.dlv = [@ EXCEPT ![s.epoch] = k]]
